@@ -32,6 +32,27 @@ pub fn c11(opts: &Opts, out: &mut Out, ped_labels: &[Vec<u8>]) {
             out.req(format!("genblock kind={} party={} idx={}", kind, party, idx), format!("in={}", hex(&inputs[&id])));
         }
     }
+    // (1b) party indices that need the second and third byte of the label: one wide set at bit length 1
+    {
+        let wide_cap = if opts.thorough { 1usize << 17 } else { 1usize << 10 };
+        let wide = fmrun::params(1, wide_cap, 1);
+        let inputs: HashMap<u32, [u8; 64]> = fm::basis_inputs().into_iter().map(|(b, id)| (id, b)).collect();
+        let g: Vec<FP> = wide.gi_base_iter().cloned().collect();
+        let h: Vec<FP> = wide.hi_base_iter().cloned().collect();
+        let mut parties = vec![255usize, 256, 257, 300, 511, 512, 513, 767, 1023, 65535, 65536, 65537, 70000, wide_cap - 1];
+        parties.retain(|p| *p < wide_cap);
+        for (kind, v) in [("G", &g), ("H", &h)] {
+            for &party in &parties {
+                let id = v[party].single_id().expect("basis element");
+                out.req(format!("genblock kind={} party={} idx=0", kind, party), format!("in={}", hex(&inputs[&id])));
+            }
+        }
+        let ids: HashSet<u32> = g.iter().chain(h.iter()).filter_map(|p| p.single_id()).collect();
+        out.oracle("C11:all-distinct-nonidentity", g.len() == wide_cap && h.len() == wide_cap && ids.len() == 2 * wide_cap, &format!("bits=1 cap={}", wide_cap), &format!("{} distinct vector generators among {}", ids.len(), 2 * wide_cap));
+        let table = &wide.precomp().0;
+        out.oracle("C11:table-interleaved", table.len() == 2 * wide_cap && (0..wide_cap).all(|i| table[2 * i] == g[i] && table[2 * i + 1] == h[i]), &format!("bits=1 cap={}", wide_cap), "precomputed table is not G_0,H_0,G_1,H_1,...");
+        classes.insert((1usize, wide_cap));
+    }
     for &bits in &bits_all {
         for &cap in &caps_all {
             let key = format!("bits={} cap={}", bits, cap);
@@ -158,7 +179,7 @@ pub fn c11(opts: &Opts, out: &mut Out, ped_labels: &[Vec<u8>]) {
     let all_same = handles.into_iter().all(|h| h.join().map(|v| v == reference).unwrap_or(false));
     out.oracle("C11:deterministic-across-threads", all_same, "bits=16 cap=4 degree=3 x 8 threads", "constructions differ");
     out.stat("distinct_classes", classes.len() + 6);
-    out.case("all (bits, capacity) in {1..64} x {1..32}: accessors = Elligator(SHAKE256 block) via free-module-observed inputs; table order; capacity-freeness; Pedersen labels from the model; 4103 points distinct".into());
+    out.case("all (bits, capacity) in {1..64} x {1..32}: accessors = Elligator(SHAKE256 block) via free-module-observed inputs; table order; capacity-freeness; Pedersen labels from the model; 4103 points distinct; one wide set at bit length 1 (capacity 2^10, thorough 2^17): labels of parties 255..70000, all distinct, table order".into());
 }
 
 /// child process for C11: request the Pedersen generator sets in the given order and check each against the labels
